@@ -126,7 +126,7 @@ class PolyScenario:
     @classmethod
     def generate(cls, rng, ploidy=4, n_contigs=1, n_variants=(6, 12), cov_per_hap=(4, 8), read_len=(60, 200),
                  multi_prob=0.2, indel_prob=0.0, hom_prob=0.15, uneven=True, samples=("S1",), gaps=False,
-                 min_gap=12):
+                 min_gap=12, gap_frac=None):
         contigs, variants, haps, reads = {}, {}, {}, []
         pl = {s: (ploidy[s] if isinstance(ploidy, dict) else ploidy) for s in samples}
         rid = 0
@@ -144,6 +144,8 @@ class PolyScenario:
                 haps[f"{s}|{name}"] = hs
                 # optional coverage gap: no read crosses `gap_at`
                 gap_at = rng.randrange(L // 3, 2 * L // 3) if (gaps and rng.random() < 0.5) else None
+                if gap_frac is not None:
+                    gap_at = int(L * gap_frac)      # no read crosses this point: two blocks, the first one smaller
                 for h in range(k):
                     cov = rng.randrange(cov_per_hap[0], cov_per_hap[1] + 1)
                     if uneven and rng.random() < 0.3:
